@@ -196,6 +196,41 @@ func checkC02(c *Ctx) {
 		rs.Check(e && n, f.Name(), "raw-SQL unit types", f.Body.Pos(), "decides on Expr.SQL and NamedExpr.SQL alike", "this function decides whether to parenthesise a raw condition by looking for AND/OR in its text, but only for "+rawKinds(e, n)+": the other raw form (with named arguments / with ?) is rendered without parentheses and NOT/AND bind to its first operand only")
 	}
 
+	// ---- C02.not-members ----
+	rnm := c.Rule("C02.not-members", "NotConditions.Build decides per member: every NegationExpressionBuilder test is applied to the range variable of a loop over all members", 2)
+	{
+		nb := p.MethodDecl(pkgClause, "NotConditions", "Build")
+		c.Touch(nb)
+		info := nb.Pkg.TypesInfo
+		negI := p.Named(pkgClause, "NegationExpressionBuilder")
+		recv := recvName(nb)
+		parents := parentMap(nb.Body)
+		n := 0
+		ast.Inspect(nb.Body, func(x ast.Node) bool {
+			ta, ok := x.(*ast.TypeAssertExpr)
+			if !ok || ta.Type == nil {
+				return true
+			}
+			if tv, ok := info.Types[ta.Type]; !ok || !types.Identical(tv.Type, negI) {
+				return true
+			}
+			n++
+			okm := false
+			if id, ok := unparen(ta.X).(*ast.Ident); ok {
+				for cur := parents[ta]; cur != nil; cur = parents[cur] {
+					if rs, ok := cur.(*ast.RangeStmt); ok {
+						if v, ok := rs.Value.(*ast.Ident); ok && info.Defs[v] == info.Uses[id] && strings.HasPrefix(canon(info, rs.X), recv+".") {
+							okm = true
+						}
+					}
+				}
+			}
+			rnm.Check(okm, nb.Name(), "negation-builder test on each member", ta.Pos(), "applied to the loop variable over "+recv+".Exprs", "NOT decides how to negate a group from a single, fixed member instead of looking at every member: a mixed group (raw condition + map/struct/Eq) is negated as a whole instead of member by member (or the other way round)")
+			return true
+		})
+		rnm.Check(n >= 2, nb.Name(), "detects and dispatches negation builders", nb.Body.Pos(), "detection and rendering both test members", "NotConditions.Build no longer tests its members for NegationExpressionBuilder")
+	}
+
 	// ---- C02.empty ----
 	checkEmptyForms(c, c.Rule("C02.empty", "empty condition forms add no clause (same rule as C09.empty)", 14))
 }
